@@ -127,7 +127,8 @@ Prog(f) ==
         \o IfThen("ctx",
               IfThen("invalidmsg", <<Rel("M"), CallEv("SendEvent", "invalid"), Acq("M"), Rel("M"), Ret>>)
            \o IfThen("rejects", <<Rel("M"), Ret>>)
-           \o <<Acc(SE, V("Data.req", "w"))>>)
+           \o IfThen("applied", <<Rel("M"), Ret>>)       \* ApplyToSwapData: AlreadyExistsError for a second coop_close / opening_tx_broadcasted
+           \o <<Acc(SE, V("Data.req", "w")), Set("app", "ev")>>)
         \o <<Acc(SE, MarshalReads), Gate("persist")>>
         \o Forever(                                        \* the transition loop
               IfThen("rejects", <<Rel("M"), Ret>>)
@@ -167,13 +168,13 @@ Prog(f) ==
     [] f = "AddWaitForConfTx" ->
         IfElse("rpc",
            <<Spawn("obs", "ObsLoop"), Acq("W"), Acc("txwatcher.(*BlockchainRpcTxWatcher).AddWaitForConfirmationTx", V("w.obsList", "w")),
-             Gate("rpc.height"), Send("obs"), Rel("W"), Ret>>,        \* newBlock <- height: blocks, with W (and the swap mutex) held, until the loop takes it
+             Gate("rpc.height"), Set("hk", "cf"), Send("obs"), Rel("W"), Ret>>,        \* newBlock <- height: blocks, with W (and the swap mutex) held, until the loop takes it
            <<Acq("H"), Acc("electrum.(*liquidBlockHeaderSubscriber).Register", V("el.observers", "w")), Set("confN", "1"), Rel("H"), Ret>>)
     \* ---- watcher: block notifications
     [] f = "Notify" ->      \* a new block reaches the watcher of the swap's chain
         IfElse("rpc",
            <<Acc("txwatcher.(*BlockchainRpcTxWatcher).StartWatchingTxs.func1", V("w.obsList", "r")), Call("HandleCsvTx"), Ret>>,
-           IfThen("elwFree", <<Set("hdr", "d"), Spawn("elw", "Update")>>) \o <<Ret>>)   \* the watcher goroutine takes one header at a time
+           IfThen("elwTakes", <<Set("hdr", "d"), Spawn("elw", "Update")>>) \o <<Ret>>)   \* the watcher goroutine takes one header at a time
     [] f = "HandleCsvTx" -> \* txwatcher/rpctxwatcher.go HandleCsvTx
         <<Set("rm", "F"), Acq("W"), Acc("txwatcher.(*BlockchainRpcTxWatcher).HandleCsvTx", V("w.csvList", "r"))>>
         \o IfThen("csvListed",
@@ -208,15 +209,17 @@ Prog(f) ==
         \o IfThen("rmConfLater", <<Call("OnTxConfirmed"), Acq("H"), Acc("electrum.(*liquidBlockHeaderSubscriber).Deregister", V("el.observers", "w")), Set("confN", "0"), Rel("H")>>)
         \o <<Ret>>
     [] f = "ObsLoop" ->     \* txwatcher observationLoop of one swap
-        Forever(<<Recv, Gate("rpc.height"), Gate("rpc.hash"), Gate("rpc.txout")>>
-                \o IfThen("confirmed",
-                      <<Gate("rpc.hash"), Gate("rpc.rawtx"), Call("OnTxConfirmed"),
-                        Acq("W"), Acc("txwatcher.(*BlockchainRpcTxWatcher).observationLoop.func1", V("w.obsList", "w")), Rel("W"), Ret>>))
+        Forever(<<Recv>>
+                \o IfThen("newHeight",
+                      <<Set("lastH", "hobs"), Gate("rpc.height"), Gate("rpc.hash"), Gate("rpc.txout")>>
+                      \o IfThen("confirmed",
+                            <<Gate("rpc.hash"), Gate("rpc.rawtx"), Call("OnTxConfirmed"),
+                              Acq("W"), Acc("txwatcher.(*BlockchainRpcTxWatcher).observationLoop.func1", V("w.obsList", "w")), Rel("W"), Ret>>)))
     [] f = "DeliverH" ->    \* dispatcher hands the new height to the swap's observation loop
         IfElse("rpc",
            <<Acc("txwatcher.(*BlockchainRpcTxWatcher).StartWatchingTxs.func1", V("w.obsList", "r"))>>
-           \o IfThen("obsReady", <<Send("obs")>>) \o <<Ret>>,         \* a loop that is busy does not take the height (the sender goroutine stays behind)
-           IfThen("elwFree", <<Set("hdr", "d"), Spawn("elw", "Update")>>) \o <<Ret>>)
+           \o <<Set("hk", "cf")>> \o IfThen("obsReady", <<Send("obs")>>) \o <<Ret>>,         \* a loop that is busy does not take the height (the sender goroutine stays behind)
+           IfThen("elwTakes", <<Set("hdr", "d"), Spawn("elw", "Update")>>) \o <<Ret>>)
     \* ---- actions of the FSM states (Execute)
     [] f = "A_ACP"   -> <<Gate("ln.notifier"), Gate("wallet.script"), Call("AddWaitForCsvTx"), Set("nev", "NoOp"), Ret>>
     [] f = "A_WCSV"  -> MgrRemove \o <<Gate("wallet.script"), Call("AddWaitForCsvTx"), Set("nev", "NoOp"), Ret>>
@@ -242,7 +245,9 @@ Prog(f) ==
           Acq("P"), Acc("policy.(*Policy).GetMinSwapAmountMsat", V("pol.min", "r")), Rel("P"),
           Gate("ln.canspend"), Gate("ln.spendable"),
           Acq("SW"), Acc("swap.(*SwapService).lockSwap", {<<"activeSwaps", "r">>, <<"Data.req", "r">>, <<"activeSwaps", "w">>}), Rel("SW"),
-          Acq("M2"), Gate("persist"), Gate("persist"), Gate("persist"), Gate("msg.send"), Gate("persist"), Gate("persist"), Rel("M2"), Ret>>
+          Acq("M2"), Gate("persist")>>
+        \o IfThen("lbtc", Height)                        \* CreateSwapRequestAction: setLiquidPaymentWindowAnchor
+        \o <<Gate("persist"), Gate("msg.send"), Gate("persist"), Gate("persist"), Rel("M2"), Ret>>
     [] f = "PolSet" ->      \* DisableSwaps / EnableSwaps / AddToAllowlist ... : setter under the package mutex
         <<Acq("P"), Acc("policy.(*Policy).DisableSwaps", V("pol.allow", "r")),
           Acc("policy.(*Policy).ReloadFile", {<<"pol.allow", "w">>, <<"pol.lists", "w">>, <<"pol.min", "w">>, <<"pol.path", "w">>}), Rel("P"), Ret>>
@@ -298,6 +303,7 @@ Cond(c, s, p) ==
     [] c = "ctx"         -> ev \in CtxEvents
     [] c = "invalidmsg"  -> ev = "coop_bad"
     [] c = "rejects"     -> NextSt(s.cfg.role, s.st, ev) = "-"
+    [] c = "applied"     -> ev \in s.app
     [] c = "done"        -> s.done[p]
     [] c = "nDone"       -> s.nev[p] = "Done"
     [] c = "nNoOp"       -> s.nev[p] = "NoOp"
@@ -313,10 +319,12 @@ Cond(c, s, p) ==
     [] c = "n>0"         -> Top(s, p).n > 0
     [] c = "confObs"     -> s.confN > 0
     [] c = "hdrMature"   -> s.hdr = 2
-    [] c = "hdrConfirmed" -> s.cf
-    [] c = "confirmed"   -> s.cf
+    [] c = "hdrConfirmed" -> s.hcf               \* judged by the height of the header
+    [] c = "confirmed"   -> s.cf /\ s.hobs >= 1  \* judged by the notified height, which may lag the node
+    [] c = "newHeight"   -> s.hobs > s.lastH     \* observationLoop: current <= lastHeight -> continue
     [] c = "obsReady"    -> Running(s, "obs") /\ Prog(Top(s, "obs").f)[Top(s, "obs").i].op = "recv" /\ ~s.got["obs"]
-    [] c = "elwFree"     -> ~Running(s, "elw")
+    [] c = "elwTakes"    -> ~Running(s, "elw") /\ s.fresh       \* acceptBlockHeight ignores a height it has seen
+    [] c = "lbtc"        -> s.cfg.lbtc
     [] c = "fltCoop"     -> "wallet.coop" \in s.cfg.faults
     [] c = "fltSend"     -> "msg.send" \in s.cfg.faults
     [] c = "inReceiver"  -> s.cfg.role = "in_receiver"
@@ -337,7 +345,10 @@ ApplySet(s, p, k, v) ==
     [] k = "ev"     -> SetTop(s, p, [Top(s, p) EXCEPT !.ev = s.nev[p]])
     [] k = "csvN"   -> [s EXCEPT !.csvN = IF v = "+1" THEN (IF @ < 2 THEN @ + 1 ELSE @) ELSE IF v = "1" THEN 1 ELSE 0]
     [] k = "confN"  -> [s EXCEPT !.confN = IF v = "1" THEN 1 ELSE 0]
-    [] k = "hdr"    -> [s EXCEPT !.hdr = s.d]
+    [] k = "hdr"    -> [s EXCEPT !.hdr = s.d, !.hcf = s.cf, !.fresh = FALSE]
+    [] k = "hk"     -> [s EXCEPT !.hk[p] = s.mined]
+    [] k = "lastH"  -> [s EXCEPT !.lastH = s.hobs]
+    [] k = "app"    -> [s EXCEPT !.app = IF Top(s, p).ev \in {"coop", "opening"} THEN @ \cup {Top(s, p).ev} ELSE @]
     [] OTHER        -> s
 
 ReadersOther(s, p) == \E q \in Procs \ {p} : s.rd[q] > 0
@@ -380,7 +391,7 @@ Exec(s0, p) ==
     [] in.op = "setn"  -> SetTop(s, p, [Top(s, p) EXCEPT !.i = @ + 1, !.n = s.csvN + s.confN])
     [] in.op = "decn"  -> SetTop(s, p, [Top(s, p) EXCEPT !.i = @ + 1, !.n = @ - 1])
     [] in.op = "spawn" -> Adv([s EXCEPT !.started[in.a] = TRUE, !.stk[in.a] = <<Frame(in.b, "-")>>, !.got[in.a] = FALSE], p, 1)
-    [] in.op = "send"  -> Adv([s EXCEPT !.got[in.a] = TRUE], p, 1)
+    [] in.op = "send"  -> Adv([s EXCEPT !.got[in.a] = TRUE, !.hobs = s.hk[p]], p, 1)
     [] in.op = "recv"  -> Adv([s EXCEPT !.got[p] = FALSE], p, 1)
     [] in.op = "join"  -> Adv(s, p, 1)
     [] OTHER -> Adv(s, p, 1)
@@ -393,7 +404,7 @@ AtGate(s, p) == Running(s, p) /\ Ins(s, p).op = "gate"
 (* local instructions up to the next visible one. Branch conditions are      *)
 (* therefore evaluated at the instant of the lock operation / gate / access  *)
 (* that produced the value they test.                                        *)
-Local(in) == in.op \in {"if", "jmp", "call", "ret", "act", "setn", "decn"} \/ (in.op = "set" /\ in.a \in {"done", "nev", "rm", "ev"})
+Local(in) == in.op \in {"if", "jmp", "call", "ret", "act", "setn", "decn"} \/ (in.op = "set" /\ in.a \in {"done", "nev", "rm", "ev", "hk", "lastH"})
 RECURSIVE Fuse(_, _)
 Fuse(s, p) == IF Running(s, p) /\ Local(Ins(s, p)) THEN Fuse(Exec(s, p), p) ELSE s
 Step(s, p) == Fuse(Exec(s, p), p)
@@ -415,12 +426,17 @@ SettleSet(s) == IF Movable(s) = {} THEN {s} ELSE UNION {SettleSet(Run(s, r)) : r
 (* recovered yet), faults, entry[p] for the driver processes ("-" = unused),  *)
 (* mines (how often the environment may mine the maturing block)             *)
 InitState(cfg) ==
-  [stk |-> [p \in Procs |-> <<>>], started |-> [p \in Procs |-> FALSE],
+  [stk |-> [p \in Procs |-> IF p = "obs" /\ cfg.prep = "ATC" /\ cfg.watcher = "rpc" /\ ~cfg.restart THEN <<Frame("ObsLoop", "-")>> ELSE <<>>],
+   started |-> [p \in Procs |-> p = "obs" /\ cfg.prep = "ATC" /\ cfg.watcher = "rpc" /\ ~cfg.restart],     \* the swap's observation loop idles at its select
    own |-> [m \in Mutexes |-> "-"], rd |-> [p \in Procs |-> 0],
    st |-> cfg.prep, active |-> ~cfg.restart,
-   csvN |-> IF cfg.prep \in {"ACP", "WCSV"} /\ ~cfg.restart THEN 1 ELSE 0,
+   \* registrations made while the swap was prepared: the RPC watcher keys them by swap id, the Electrum subscriber appends
+   csvN |-> IF cfg.restart THEN 0 ELSE IF cfg.prep = "ACP" THEN 1 ELSE IF cfg.prep = "WCSV" THEN (IF cfg.watcher = "el" THEN 2 ELSE 1) ELSE 0,
    confN |-> IF cfg.prep = "ATC" /\ ~cfg.restart /\ cfg.watcher = "el" THEN 1 ELSE 0,
-   d |-> cfg.d0, hdr |-> 0, cf |-> FALSE,
+   d |-> cfg.d0, hdr |-> 0, cf |-> FALSE, hcf |-> FALSE, hk |-> [p \in Procs |-> 0],
+   hobs |-> 0, lastH |-> IF cfg.prep = "ATC" THEN 0 ELSE 0 - 1,   \* height (in blocks mined during the run) last offered to / processed by the observation loop
+   app |-> IF cfg.prep = "ATC" THEN {"opening"} ELSE {},
+   fresh |-> cfg.prep \in {"ACP", "WCSV"} /\ ~cfg.restart,      \* blocks the watcher has not been told about yet
    nev |-> [p \in Procs |-> "-"], done |-> [p \in Procs |-> FALSE], rm |-> [p \in Procs |-> "F"],
    got |-> [p \in Procs |-> FALSE], mined |-> 0, steps |-> 0, cfg |-> cfg]
 
@@ -429,7 +445,7 @@ CanStart(s, p) == p \in Drivers /\ s.cfg.entry[p] # "-" /\ ~s.started[p]
 
 \* environment: one block is mined (the depth class advances; a taker's opening tx confirms)
 CanMine(s) == s.mined < s.cfg.mines
-Mine(s) == [s EXCEPT !.mined = @ + 1, !.d = IF @ = 1 THEN 2 ELSE @, !.cf = TRUE]
+Mine(s) == [s EXCEPT !.mined = @ + 1, !.d = IF @ = 1 THEN 2 ELSE @, !.cf = TRUE, !.fresh = TRUE]
 
 \* ---------------------------------------------------------------- properties
 Unreturned(s) == {p \in Procs : Running(s, p) /\ ~Idle(s, p)}
